@@ -14,11 +14,13 @@ import (
 	"io"
 	"log/slog"
 	"sort"
+	"sync/atomic"
 	"testing"
 	"testing/synctest"
 	"time"
 
 	"github.com/libp2p/go-libp2p/core/peer"
+	"github.com/libp2p/go-libp2p/core/peerstore"
 	"github.com/libp2p/go-libp2p/internal/verifh"
 )
 
@@ -33,12 +35,22 @@ type c13Run struct {
 	pend     map[int64]bool // removed from the table, Disconnected not yet delivered
 	notified map[int64]bool // Connected delivered
 	nc       int64
-	big      bool
+	mode     int // see c13Gen.message
+	pcap     int
 }
 
 func (x *c13Run) emit(op []int64, ret int64) {
 	x.line = append(x.line, op...)
 	x.line = append(x.line, x.e.observe(ret)...)
+}
+
+// a forced big message is a one-shot
+func (x *c13Run) takeMode() int {
+	m := x.mode
+	if m == 2 {
+		x.mode = 1
+	}
+	return m
 }
 
 func (x *c13Run) peerOf(c int64) int64 { return x.e.peerIdx(x.e.conns[c].peer) }
@@ -139,14 +151,34 @@ func (x *c13Run) finish(ch int64, out int64) {
 		gate.ch <- c13Answer{data: nil}
 		x.g.out.Cover("finish.negotiation_fails")
 	default:
-		cs, pad := x.g.message(x.peerOf(c), x.ridOf(c), x.big)
+		cs, pad := x.g.message(x.peerOf(c), x.ridOf(c), x.takeMode())
 		data := append(c13Negotiated(ID), x.e.encodeChunks(cs, pad)...)
 		op = append(op, c13WireChunks(cs)...)
 		x.coverConsume(c, "response")
 		gate.ch <- c13Answer{data: data}
 	}
 	synctest.Wait()
+	x.coverCap(c)
 	x.emit(op, 0)
+}
+
+// the address book's per-peer cap on unconnected addresses is reached: from here
+// on the case is outside the modelled domain (monitor only, see Spec.cap_binds)
+func (x *c13Run) coverCap(c int64) {
+	if x.pcap <= 0 {
+		return
+	}
+	n := 0
+	for _, d := range x.e.raw.(interface {
+		VerifC13TTLs(peer.ID) map[string]time.Duration
+	}).VerifC13TTLs(x.e.conns[c].peer) {
+		if d < peerstore.ConnectedAddrTTL {
+			n++
+		}
+	}
+	if n >= x.pcap {
+		x.g.out.Cover("book.per_peer_cap_reached(monitor_only_from_here)")
+	}
 }
 
 func (x *c13Run) coverConsume(c int64, how string) {
@@ -164,11 +196,12 @@ func (x *c13Run) coverConsume(c int64, how string) {
 }
 
 func (x *c13Run) push(c int64) {
-	cs, pad := x.g.message(x.peerOf(c), x.ridOf(c), x.big)
+	cs, pad := x.g.message(x.peerOf(c), x.ridOf(c), x.takeMode())
 	data := x.e.encodeChunks(cs, pad)
 	x.coverConsume(c, "push")
 	x.e.ids.handlePush(&c13Stream{conn: x.e.conns[c], r: bytes.NewReader(data), proto: IDPush})
 	synctest.Wait()
+	x.coverCap(c)
 	x.emit(append([]int64{7, c}, c13WireChunks(cs)...), 0)
 }
 
@@ -313,7 +346,10 @@ func c13OneCase(t *testing.T, out *verifh.Out, r *verifh.Rand, big bool) {
 		e := c13NewEnv(np, kinds, maxProtos, pcap, c13Timeout, conns)
 		defer e.close()
 		x := &c13Run{g: &c13Gen{r: r, e: e, out: out}, e: e, inNet: map[int64]bool{}, closed: map[int64]bool{},
-			pend: map[int64]bool{}, notified: map[int64]bool{}, nc: int64(nc), big: big}
+			pend: map[int64]bool{}, notified: map[int64]bool{}, nc: int64(nc), pcap: pcap}
+		if big {
+			x.mode = 1
+		}
 		x.line = []int64{13, int64(np)}
 		x.line = append(x.line, kinds...)
 		x.line = append(x.line, int64(maxProtos), int64(pcap), int64(c13Timeout), int64(nc))
@@ -331,7 +367,20 @@ func c13OneCase(t *testing.T, out *verifh.Out, r *verifh.Rand, big bool) {
 		}
 		steps := 6 + r.Intn(12)
 		if big {
-			steps = 4 + r.Intn(5)
+			// scripted start: a connection comes up and a message around the caps is consumed on it
+			steps = r.Intn(4)
+			x.netAdd(1)
+			x.connected(1)
+			if conns[1][0] == conns[0][0] && r.Bool() {
+				x.netAdd(2)
+				x.connected(2)
+			}
+			x.mode = 2
+			if r.Bool() {
+				x.finish(1, 2)
+			} else {
+				x.push(1)
+			}
 		}
 		for i := 0; i < steps; i++ {
 			x.randomOp()
@@ -353,6 +402,9 @@ func c13OneCase(t *testing.T, out *verifh.Out, r *verifh.Rand, big bool) {
 					sort.Slice(tasks, func(i, j int) bool { return tasks[i] < tasks[j] })
 					x.finish(x.pick(tasks), 2)
 				case k == 9:
+					if big && r.Chance(1, 2) {
+						x.mode = 2 // a late message around the caps
+					}
 					x.push(int64(1 + r.Intn(nc)))
 				}
 			}
@@ -362,6 +414,121 @@ func c13OneCase(t *testing.T, out *verifh.Out, r *verifh.Rand, big bool) {
 		out.Cover("cases")
 		out.Case(x.line)
 	})
+}
+
+// A push whose consumption races, in real goroutines, with the swarm dropping a
+// connection and the delivery of its Disconnected notification: the removal
+// and the notification are fired from inside consumeMessage's AddAddrs call
+// (i.e. while it holds addrMu, after it read Connectedness).  Emitted as a
+// version-14 case: the linearisation under addrMu and the final contents.
+func c13RaceCase(out *verifh.Out, r *verifh.Rand) {
+	np := 2 + r.Intn(2)
+	kinds := make([]int64, np)
+	for i := range kinds {
+		if r.Chance(3, 5) {
+			kinds[i] = 1
+		}
+	}
+	nc := 1 + r.Intn(2)
+	conns := make([][4]int64, nc)
+	for i := range conns {
+		rid := int64(1 + r.Intn(24))
+		conns[i] = [4]int64{1, c13Class(c13Addr(rid)), rid, 0}
+	}
+	e := c13NewEnv(np, kinds, 128, 64, c13Timeout, conns)
+	defer e.close()
+	g := &c13Gen{r: r, e: e, out: out}
+	line := []int64{14, int64(np)}
+	line = append(line, kinds...)
+	line = append(line, 128, 64, int64(c13Timeout), int64(nc))
+	for _, c := range conns {
+		line = append(line, c[:]...)
+	}
+	line = append(line, 0)
+	var ops [][]int64
+	for c := 1; c <= nc; c++ {
+		e.net.add(e.conns[c])
+		ops = append(ops, []int64{1, int64(c)})
+	}
+	victim, carrier := int64(1+r.Intn(nc)), int64(1+r.Intn(nc))
+	cs, pad := g.message(1, conns[carrier-1][2], 0)
+	data := e.encodeChunks(cs, pad)
+	done := make(chan struct{})
+	var fired atomic.Bool
+	drop := func() {
+		e.net.remove(e.conns[victim])
+		(*netNotifiee)(e.ids).Disconnected(e.net, e.conns[victim])
+		close(done)
+	}
+	e.ps.addHook = func() {
+		if fired.Swap(true) {
+			return
+		}
+		go drop()
+		select {
+		case <-done:
+		case <-time.After(2 * time.Millisecond):
+		}
+	}
+	e.ids.handlePush(&c13Stream{conn: e.conns[carrier], r: bytes.NewReader(data), proto: IDPush})
+	if !fired.Swap(true) {
+		drop() // the message was refused before any address was written
+		out.Cover("race.message_not_consumed")
+	}
+	<-done
+	e.ps.addHook = nil
+	// what Addrs(p) held when Disconnected ran under the lock: the peer's own
+	// addresses of the consumed message; what it passed on comes first
+	var order, consumed []int64
+	seen := map[int64]bool{}
+	for _, call := range e.ps.take() {
+		if call.code != 3 {
+			continue
+		}
+		n := call.args[1]
+		for i := int64(0); i < n; i++ {
+			id, sfx := call.args[2+3*i], call.args[4+3*i]
+			if call.args[0] == 2 { // the recently-connected TTL: Disconnected's call
+				order = append(order, id)
+				seen[id] = true
+			} else if id > 0 && (sfx == 0 || sfx == 1) {
+				consumed = append(consumed, id)
+			}
+		}
+	}
+	last := nc == 1 || false
+	if nc == 2 {
+		out.Cover("race.disconnect_of_another_connection_remains")
+	} else {
+		out.Cover("race.disconnect_of_the_last_connection")
+	}
+	if last {
+		sort.Slice(consumed, func(i, j int) bool { return consumed[i] < consumed[j] })
+		for _, id := range consumed {
+			if !seen[id] {
+				seen[id] = true
+				order = append(order, id)
+			}
+		}
+	} else {
+		order = nil
+	}
+	ops = append(ops, append([]int64{7, carrier}, c13WireChunks(cs)...))
+	ops = append(ops, []int64{2, victim})
+	d := []int64{4, victim, int64(len(order))}
+	for _, id := range order {
+		d = append(d, id, 3, 0)
+	}
+	ops = append(ops, d)
+	line = append(line, int64(len(ops)))
+	for _, o := range ops {
+		line = append(line, o...)
+	}
+	for i := 1; i <= np; i++ {
+		line = append(line, e.dumpPeer(i)...)
+	}
+	out.Cover("race.cases")
+	out.Case(line)
 }
 
 func TestVerifNothing(t *testing.T) {}
@@ -381,14 +548,21 @@ func TestVerifC13(t *testing.T) {
 		}
 	}
 	r := verifh.NewRand(verifh.Seed())
-	n, nbig := 1500, 60
+	n, nbig := 1500, 120
 	if verifh.Tier() == "thorough" {
-		n, nbig = 20000, 900
+		n, nbig = 50000, 3000
 	}
 	for i := 0; i < n; i++ {
 		c13OneCase(t, out, r.Fork(), false)
 	}
 	for i := 0; i < nbig; i++ {
 		c13OneCase(t, out, r.Fork(), true)
+	}
+	nrace := 150
+	if verifh.Tier() == "thorough" {
+		nrace = 5000
+	}
+	for i := 0; i < nrace; i++ {
+		c13RaceCase(out, r.Fork())
 	}
 }
